@@ -67,7 +67,8 @@ def gen_random(k):
             seqs = [make_seq(cmpc, rng.range(1, 12), keys) for _ in range(m)]
         N = sum(len(s) for s in seqs)
         if N <= 80:
-            out.append("all %s %s" % (cmpc, fmt(seqs)))
+            # every rank; one tuple in eight with every template variant on every rank, the others rotating
+            out.append("%s %s %s" % ("all" if rng.chance(1, 8) else "rot", cmpc, fmt(seqs)))
         else:
             for r in ranks_for(seqs, 12 if N > 400 else 20):
                 out.append("one %s %d %s" % (cmpc, r, fmt(seqs)))
@@ -168,19 +169,26 @@ def gen_domain(k):
     return out
 
 
-def gen_many(pairs):
+MANY_BANDS = [[2, 3], [2, 3], [4, 5, 6, 7], [4, 5, 6, 7], [1, 2, 3], [2, 3, 4], [1, 2, 3, 4, 5, 6], [1, 2, 3, 4, 5, 6, 1, 2, 3, 4, 7, 8, 9],
+              [3, 4, 5], [7, 8, 9]]
+
+
+def gen_many(budget):
     """MANY short sequences (more than libstdc++'s insertion-sort cut-off of 16, where an unstable sort of the sample
-    shows): m in {17,...,100}, lengths 1..6 (sometimes 7..9), 1..4 distinct keys, every rank; about `pairs` (input, rank)
-    pairs. Judged by the extracted model / checker like every explicit-list case."""
+    shows): m in {17,...,100}, lengths from a band (most often one binade [2^k, 2^(k+1)-1], so that nearly every sequence
+    contributes a real sample at the first level - measured: with a value-only sample sort every such tuple fails; fully
+    mixed lengths 1..9 dilute that), 1..4 distinct keys, every rank. `budget` bounds sum((N+1)*m), which the model's running
+    time is proportional to (about 30 us per unit). Judged by the extracted model / checker like every explicit-list case."""
     out = []
     n = 0
-    while n < pairs:
+    while n < budget:
         cmpc = rng.choice(["L", "L", "G", "Q"])
-        m = rng.choice([17, 18, 24, 32, 33, 48, 64, 100])
+        m = rng.choice([17, 18, 24, 32, 33, 48, 64, 100, 17, 18, 24, 33, 17, 18])
         keys = rng.range(1, 4)
-        seqs = [make_seq(cmpc, rng.choice([1, 2, 3, 4, 5, 6, 1, 2, 3, 4, 7, 8, 9]), keys) for _ in range(m)]
+        band = rng.choice(MANY_BANDS)
+        seqs = [make_seq(cmpc, rng.choice(band), keys) for _ in range(m)]
         out.append("rot %s %s" % (cmpc, fmt(seqs)))
-        n += sum(len(x) for x in seqs) + 1
+        n += (sum(len(x) for x in seqs) + 1) * m
     return out
 
 
@@ -233,10 +241,11 @@ elif ck.thorough():
     shards.append(("pad", gen_pad()))
     shards.append(("domain", gen_domain(400)))
     for i in range(8):
-        shards.append(("many-sequences-%d" % i, gen_many(10000)))
+        shards.append(("many-sequences-%d" % i, gen_many(1000000)))
 else:
     shards.append(("corpus", corpus))
-    shards.append(("exh-L-m3-len4-k3", ["exh L 1 1 9 3", "exh L 2 1 4 3", "exh L 3 1 4 3"]))
+    shards.append(("exh-L-m3-len4-k3-a", ["exh L 1 1 9 3", "exh L 2 1 4 3", "exh L 3 1 4 3 0 2"]))
+    shards.append(("exh-L-m3-len4-k3-b", ["exh L 3 1 4 3 1 2"]))
     shards.append(("exh-G-m3", ["exh G 2 1 4 3", "exh G 3 1 3 3", "exh G 4 1 2 2"]))
     shards.append(("exh-L-m4-len2-k3+Q", ["exh L 4 1 2 3", "exh Q 2 1 4 3", "exh Q 3 1 3 2"]))
     shards.append(("exh-L-m2-len12-k2", ["exh L 2 1 12 2", "exh L 3 1 5 2"]))
@@ -246,7 +255,7 @@ else:
     shards.append(("pad", gen_pad()))
     shards.append(("domain", gen_domain(60)))
     for i in range(2):
-        shards.append(("many-sequences-%d" % i, gen_many(4000)))
+        shards.append(("many-sequences-%d" % i, gen_many(120000)))
 
 # RankType narrower than the total (defect fixed in /repo b429853: N was accumulated in RankType): the witnesses of
 # corpus/C08/narrow.txt and virtual_narrow.txt first, then generated cases; run right after the corpus.
@@ -271,6 +280,17 @@ for k, (name, lines) in enumerate(shards):
     open(p, "w").write("\n".join(lines) + "\n")
     files.append(p)
 TMO = 3000
+TIMING = {}
+
+
+def timed_sh(tag, cmd, timeout=None, cwd=None, env=None):
+    import time as _t
+    t0 = _t.time()
+    r = verif.sh(cmd, timeout, cwd, env)
+    TIMING[tag] = round(_t.time() - t0, 1)
+    return r
+
+
 def virt_model(lines):
     return 0, "\n".join(virt_expected(l) for l in lines if l.startswith("virt")) + "\n"
 
@@ -280,8 +300,8 @@ def is_virt(lines):
 
 
 # virtual sequences cannot be materialised for the extracted model: their expected answers come from virt_expected
-fm = [(pool.submit(virt_model, lines) if is_virt(lines) else pool.submit(verif.sh, [drv, p], TMO))
-      for p, (_, lines) in zip(files, shards)] if drv else []
+fm = [(pool.submit(virt_model, lines) if is_virt(lines) else pool.submit(timed_sh, "model:" + nm, [drv, p], TMO))
+      for p, (nm, lines) in zip(files, shards)] if drv else []
 special = {"virtual_evaluations": 0, "pad_evaluations": 0}
 objs = [f.result() for f in parts]
 exe, log = None, "\n".join(l for _, l in objs)
@@ -327,7 +347,7 @@ elif drv is None:
                  {"correspondence": "ocaml/C08_driver.ml", "log": dlog[-2000:]}, no_input=True)
 else:
     env = dict(os.environ, ASAN_OPTIONS="detect_leaks=1")
-    fi = [pool.submit(verif.sh, [exe, p], TMO, None, env) for p in files]
+    fi = [pool.submit(timed_sh, "impl:" + nm, [exe, p], TMO, None, env) for p, (nm, _) in zip(files, shards)]
     results = [(a.result(), b.result()) for a, b in zip(fi, fm)]
 
     for (name, lines), ((rc1, out1), (rc2, out2)) in zip(shards, results):
@@ -493,6 +513,8 @@ else:
                             "result": impl[k][:400]})
 
 pool.shutdown(wait=True)
+if os.environ.get("VERIF_C08_TIMING"):
+    ck.say("# timing (s): " + " ".join("%s=%s" % kv for kv in sorted(TIMING.items(), key=lambda kv: -kv[1])))
 if pr is not None and not pr["ok"]:
     ck.proof_broken(found)
 
